@@ -101,6 +101,7 @@ func (tw *TraceWriter) Sanitize(s *SessionResult, input []byte) *CallResult {
 	for _, t := range rec.Toks {
 		for _, p := range pols {
 			tw.Facts.AddTag(p, t.Tok.N, t.Tok.A)
+			tw.Facts.AddAfter(p, t.Tok.N, t.After)
 		}
 	}
 	evs := rec.TraceEvents(id, "SanitizeReader", false)
